@@ -1322,11 +1322,20 @@ int expr_comb_cmp_and_set(expr * left, expr * right, expr * value, int * result)
     else if (left->comb.comb == COMB_TYPE_RANGE &&
              right->comb.comb == COMB_TYPE_RANGE)
     {
-        if (value->left->comb.range.comb_dims == value->right->comb.range.comb_dims)
+        if (left->comb.range.comb_dims == right->comb.range.comb_dims)
         {
             value->comb.comb = COMB_TYPE_RANGE;
-            value->comb.range.comb_dims = value->left->comb.range.comb_dims;
-            value->comb.range.comb_ret = value->left->comb.range.comb_ret;
+            value->comb.range.comb_dims = left->comb.range.comb_dims;
+            value->comb.range.comb_ret = left->comb.range.comb_ret;
+        }
+        else
+        {
+            *result = TYPECHECK_FAIL;
+            value->comb.comb = COMB_TYPE_ERR;
+            print_error_msg(value->line_no,
+                            "ranges are different first line %u second line %u",
+                            left->line_no,
+                            right->line_no);
         }
     }
     else if (left->comb.comb == COMB_TYPE_SLICE &&
